@@ -11,6 +11,9 @@ C11 driver: one JSON request per line on stdin, one JSON answer per line on stdo
   {"op":"query","reW":s,"idW":s,"builtins":TABLE,"specs":[FSPEC..],"env":[[k,v]..],"cols":[EXPR..],"start":n,
    "obs":{"decls":[[ty,name]..],"blocks":[{"lines":[..],"lhs":s,"rhs":s}..],"cols":[..],"includes":[..]}|{"err":cls}?}
       -> {"ok":BODY}|{"err":kind}, "sitesOk":b,"receiverPlain":b,"wf":b,"prefixOk":b,"holds":b,"why":s
+  {"op":"deltar","h":n,"den":n,"e1":i,"k1":i,"e2":i,"k2":i,"obs":x}
+      -> {"w":i,"ref":x,"holds":b}   (Angle.DeltaRGridSpec: obs = DeltaR(e1/den, k1·π/h, e2/den, k2·π/h); w = wrap h (k1-k2))
+  {"op":"wrapgrid","h":n,"k":i,"obs":x} -> {"w":i,"holds":b}   (Angle.WrapGridSpec: obs is k·π/h brought into [-π, π])
 
 reW / idW: the non-ASCII characters of the case that Python's `re` classes as `\w` / that may
 occur in an identifier; on ASCII both classes are `[A-Za-z0-9_]`.
@@ -18,6 +21,7 @@ Run: lake env lean --run FaxVerif/C11/Driver.lean
 -/
 import Lean.Data.Json
 import FaxVerif.C11.Spec
+import FaxVerif.C11.Angle
 open Lean FaxVerif.C11
 
 def S (s : String) : Str := s.toList
@@ -305,6 +309,33 @@ def opQuery (j : Json) : Except String Json := do
   pure (Json.mkObj (out ++ [("sitesOk", Json.bool sitesOk), ("receiverPlain", Json.bool (ReceiverPlainList tbl cols)),
     ("wf", Json.bool wf), ("prefixOk", Json.bool prefixOk), ("styleStrict", Json.bool styleStrict), ("holds", Json.bool holds), ("why", Json.str why)]))
 
+def floatJson (f : Float) : Json :=
+  match JsonNumber.fromFloat? f with
+  | .inr n => Json.num n
+  | .inl t => Json.str t
+
+def getFloat (j : Json) (k : String) : Except String Float := do
+  pure (← (← j.getObjVal? k).getNum?).toFloat
+
+def opDeltaR (j : Json) : Except String Json := do
+  let h ← (← j.getObjVal? "h").getNat?
+  let den ← (← j.getObjVal? "den").getNat?
+  let e1 ← (← j.getObjVal? "e1").getInt?
+  let k1 ← (← j.getObjVal? "k1").getInt?
+  let e2 ← (← j.getObjVal? "e2").getInt?
+  let k2 ← (← j.getObjVal? "k2").getInt?
+  let obs ← getFloat j "obs"
+  pure (Json.mkObj [("w", Json.num (JsonNumber.fromInt (Angle.wrap h (k1 - k2)))),
+    ("ref", floatJson (Angle.deltaRRef h den e1 k1 e2 k2)),
+    ("holds", Json.bool (Angle.DeltaRGridSpec h den e1 k1 e2 k2 obs))])
+
+def opWrapGrid (j : Json) : Except String Json := do
+  let h ← (← j.getObjVal? "h").getNat?
+  let k ← (← j.getObjVal? "k").getInt?
+  let obs ← getFloat j "obs"
+  pure (Json.mkObj [("w", Json.num (JsonNumber.fromInt (Angle.wrap h k))),
+    ("holds", Json.bool (Angle.WrapGridSpec h k obs))])
+
 def handle (line : String) : String :=
   match Json.parse line with
   | .error e => (Json.mkObj [("bad", Json.str e)]).compress
@@ -319,6 +350,8 @@ def handle (line : String) : String :=
       else if op == "build" then opBuild j
       else if op == "find" then opFind j
       else if op == "query" then opQuery j
+      else if op == "deltar" then opDeltaR j
+      else if op == "wrapgrid" then opWrapGrid j
       else throw s!"unknown op {op}"
     match r with
     | .ok j => j.compress
